@@ -8,6 +8,7 @@ CONSTANTS
   CloserSeesCtx = TRUE
   CloseOn = "wg"
   SendSelectsDone = FALSE
+  FastPath = FALSE
 INVARIANTS AllDone
 PROPERTIES Settles
 CHECK_DEADLOCK FALSE
